@@ -3,6 +3,7 @@ import Proofs.C07Splitters
 import Proofs.C07Regex
 import Proofs.C07Blank
 import Proofs.C07Lit
+import Proofs.C07Lines
 /-!
 # C07 — record reading is lossless and independent of how input bytes arrive
 
@@ -65,6 +66,21 @@ theorem byte_lossless (c : UInt8) (chunks : List Bytes) :
       if chunks.flatten.getLast? = some c ∨ chunks.flatten = [] then chunks.flatten else chunks.flatten ++ [c] := by
   rw [scan_eq_final _ (wf_byte c)]
   simpa using byte_lossless_final c chunks.flatten
+
+/-- single-byte RS, every chunking: no record contains the separator. Together with `byte_lossless` this says the records
+are exactly the maximal separator-free segments of the input, in order. -/
+theorem byte_records_are_segments (c : UInt8) (chunks : List Bytes) :
+    ∀ p ∈ scan (splitByte c) [] chunks false, c ∉ p.1 := by
+  rw [scan_eq_final _ (wf_byte c)]
+  simpa using byte_records_no_sep c chunks.flatten
+
+/-- RS="\n", every chunking: the records are the lines — the LF-free segments of the input in order (`byte_lossless`,
+`byte_records_are_segments` for LF) — each with one trailing CR dropped. -/
+theorem newline_spec (chunks : List Bytes) :
+    scan splitNewline [] chunks false =
+      (scan (splitByte 10) [] chunks false).map fun p => (dropCR p.1, p.2) := by
+  rw [scan_eq_final _ wf_newline, scan_eq_final _ (wf_byte 10)]
+  simpa using newline_is_byte_dropCR chunks.flatten
 
 /-- F10, stated on the model: the matcher of `abcd|b` restricted to the witness is not stable, and the scanner model is
 then chunk-dependent exactly as the real code is ("xabc"+"dy" vs "xabcdy"). -/
